@@ -424,6 +424,38 @@ def render(node: ast.AST) -> str:
 
 
 # --------------------------------------------------------------------------------------------- engine
+_GR_CACHE: dict[int, ast.FunctionDef] = {}
+
+
+def _guard_returns_to_else(fd: ast.FunctionDef) -> ast.FunctionDef:
+    """A generator whose only `return`s are bare, and are the last statement of the function or of an `if` branch (without else)
+    in the function's top-level statement list: the same generator without `return` (the statements after such an `if` become its
+    else branch).  Anything else is returned unchanged."""
+    if id(fd) in _GR_CACHE:
+        return _GR_CACHE[id(fd)]
+    import copy
+
+    def norm(stmts: list[ast.stmt]) -> list[ast.stmt]:
+        out: list[ast.stmt] = []
+        for i, st in enumerate(stmts):
+            if isinstance(st, ast.Return) and st.value is None:
+                return out  # what follows a bare return is dead
+            if isinstance(st, ast.If) and not st.orelse and st.body and isinstance(st.body[-1], ast.Return) and st.body[-1].value is None:
+                rest = norm(stmts[i + 1 :])
+                new = ast.If(st.test, norm(st.body[:-1]) or [ast.Pass()], rest)
+                out.append(ast.copy_location(new, st))
+                return out
+            out.append(st)
+        return out
+
+    c = copy.deepcopy(fd)
+    c.body = norm(c.body) or [ast.Pass()]
+    ast.fix_missing_locations(c)
+    res = c if not any(isinstance(n, ast.Return) for n in ast.walk(c)) else fd
+    _GR_CACHE[id(fd)] = res
+    return res
+
+
 class Enumerator:
     def __init__(self, cfg: Cfg):
         self.cfg = cfg
@@ -780,7 +812,8 @@ class Enumerator:
             skip_self = True
         if fd is None or any(isinstance(a, ast.Starred) for a in call.args):
             return None
-        own = [n for n in ast.walk(fd) if not (isinstance(n, (ast.FunctionDef, ast.Lambda)) and n is not fd)]
+        if any(isinstance(n, ast.Return) for n in ast.walk(fd)):
+            fd = _guard_returns_to_else(fd)  # `if c: ...; return` followed by the rest  ==  `if c: ... else: <the rest>`
         ys = [n for n in ast.walk(fd) if isinstance(n, (ast.Yield, ast.YieldFrom))]
         if not ys or any(isinstance(n, ast.Return) for n in ast.walk(fd)):
             return None
@@ -1439,6 +1472,23 @@ class Enumerator:
                                 return k.value
                         if flds[i][1] is not None and isinstance(flds[i][1], ast.Constant):
                             return flds[i][1]
+                    elif n.attr not in names:
+                        # a class-level constant of the constructed class (`is_directory = True` in the Dir* event classes), never
+                        # stored through an instance anywhere in the program
+                        got = self.P.class_attr(n.value.func.id, n.attr)
+                        if got and isinstance(got[1], ast.Call) and dotted(got[1].func) in ("field", "dataclasses.field"):
+                            # a dataclass field that the generated __init__ does not take: `x: bool = field(default=False, init=False)`
+                            kw_ = {k.arg: k.value for k in got[1].keywords}
+                            if isinstance(kw_.get("init"), ast.Constant) and kw_["init"].value is False and isinstance(kw_.get("default"), ast.Constant):
+                                got = (got[0], kw_["default"])
+                        if got and isinstance(got[1], ast.Constant) and isinstance(got[1].value, (bool, int, str, bytes, type(None))):
+                            from .flow import _attr_store_sites
+
+                            cn_ = n.value.func.id
+                            family = set(self.P.mro(cn_)) | set(self.P.subclasses(cn_))
+                            sites_ = [x for x in _attr_store_sites(self.P).get(n.attr, []) if x[0] in family or x[0] in ("<other object>", "<module>")]
+                            if not sites_ and "*" not in _attr_store_sites(self.P):
+                                return got[1]
             return None
 
         if not vc:
@@ -2059,6 +2109,8 @@ class Enumerator:
 
     def _atom(self, t: ast.expr, st: St, node: ast.AST) -> list[tuple[St, bool]]:
         neg = False
+        if any(isinstance(n, ast.Attribute) and isinstance(n.value, ast.Call) for n in ast.walk(t)):
+            t = self._project(t)  # a field / class constant read on a constructor term
         # normalise negative comparison forms
         if isinstance(t, ast.Compare) and len(t.ops) == 1:
             op = t.ops[0]
